@@ -157,8 +157,23 @@ def case_strategy(draw, tier):
         pre = draw(st.sampled_from([[], [["bool"]], [["uint", 8]], [["uint", 64], ["bool"], ["bool"]], [["sbytes", 255]], [["sbytes", 4], ["uint", 16]]]))
         post = draw(st.sampled_from([[["uint", 8]], [["bool"]], [["string"]], [["uint", 64], ["string"]]]))
         s = ["tuple", pre + [big] + post]
+    dyngap = (not boundary) and draw(st.integers(0, 7)) == 0
+    if dyngap:
+        # a dynamic member whose end is the next dynamic member's offset, with bool runs / static members in between
+        dyn = [["string"], ["dbytes"], ["da", ["uint", 8]], ["da", ["bool"]]]
+        stat = [["uint", 8], ["uint", 64], ["byte"], ["sbytes", 4]]
+        gap = []
+        for _ in range(draw(st.integers(1, 3))):
+            gap += [["bool"]] * draw(st.sampled_from([1, 1, 2, 7, 8, 9]))
+            gap += [draw(st.sampled_from(stat))] * draw(st.integers(0, 1))
+        pre = [["bool"]] * draw(st.sampled_from([0, 0, 1, 3]))
+        ms = pre + [draw(st.sampled_from(dyn))] + gap + [draw(st.sampled_from(dyn))] + [draw(st.sampled_from(dyn + stat)) for _ in range(draw(st.integers(0, 2)))]
+        s = ["tuple", ms]
     v = draw(S.value_strategy(s))
-    if boundary:
+    if dyngap:
+        target = draw(st.sampled_from([len(pre), len(pre) + len(gap) + 1, draw(st.integers(0, len(ms) - 1))]))
+        steps, final = [["idx", target]], draw(st.sampled_from(["encode", "encode", "get" if ms[target][0] in ("string", "dbytes") else "encode"]))
+    elif boundary:
         steps, final = [["idx", len(pre)]], draw(st.sampled_from(["encode", "encode", "length" if big[0] in ("sa", "tuple") else "get" if big[0] == "sbytes" else "encode"]))
     else:
         steps, final, _cs = draw(P.path_strategy(s, v))
